@@ -148,9 +148,10 @@ def rollout_job(job_id, N=3, eval_bs=2, source_filter=None):
     ds = w.load("rl4co.data.dataset")
     bl = w.load("rl4co.models.rl.reinforce.baselines")
     ctx.bounds = {"N": N, "baseline_eval_batch_size": eval_bs, "train_batch_size": 2}
-    ctx.stubs.add("baseline policy: in inference mode its reward is an uninterpreted function of the instance it is shown; in training mode a different function that also depends on the batch-mates (batch norm / dropout); env.reset is the identity")
+    ctx.stubs.add("baseline policy: in inference mode its reward is an uninterpreted function of the instance it is shown; in training mode a different function that also depends on the batch-mates (batch norm / dropout); with parameters other than those at the snapshot yet another function; env.reset is the identity")
     R = z3.Function("baseline_reward", z3.RealSort(), z3.RealSort())
     Rt = z3.Function("baseline_reward_train_mode", z3.RealSort(), z3.RealSort(), z3.RealSort())
+    Rmoved = z3.Function("reward_with_later_parameters", z3.RealSort(), z3.RealSort(), z3.RealSort())
 
     def cexb(E_, neg):
         return [{"kind": "script", "path": core.ROOT + "/vf/torch_side", "module": "data_side", "func": "run_rollout", "model_kind": "plain", "mode": "C17", "params": {"N": N, "eval_bs": eval_bs}}]
@@ -160,8 +161,15 @@ def rollout_job(job_id, N=3, eval_bs=2, source_filter=None):
         td = TensorDict({"locs": locs}, batch_size=[N])
 
         class Pol(nnmod.Module):
+            def __init__(self):
+                super().__init__()
+                self.params = {"w": z3.Real("weights_at_snapshot")}  # stands for the network parameters (updated in place by an optimizer)
+
             def forward(self, batch, env=None, decode_type=None, **k):
                 Bc = batch.batch_size[0]
+                if not self.params["w"].eq(W0):  # (a deep copy of the term is a new Python object: compare structurally)
+                    # the baseline policy must be a frozen snapshot: if it sees the actor's later parameters its values differ
+                    return {"reward": T.Tensor(np.array([Rmoved(T._real(batch["locs"].a[r, 0, 0]), self.params["w"]) for r in range(Bc)], dtype=object), T.float32)}
                 if self.training:
                     # training mode (batch norm statistics, dropout): what a row gets depends on its batch-mates
                     mix = 0
@@ -173,11 +181,13 @@ def rollout_job(job_id, N=3, eval_bs=2, source_filter=None):
         env = types.SimpleNamespace(reset=lambda b: b, name="tsp", dataset=lambda batch_size=None, **k: ds.TensorDictDataset(td.clone()))
         rb = bl.RolloutBaseline()
         actor = Pol()
+        W0 = actor.params["w"]
         actor.train()
         rb.setup(actor, env, batch_size=eval_bs, device="cpu", dataset_size=N)  # deep copy of the actor + evaluation on the baseline's own dataset
         E.obligations = []
         ctx.prove(E, f"[setup eval_bs={eval_bs}] the stored baseline values are the copied policy's inference-mode rewards on the evaluation instances",
                   all_([s_eq(rb.bl_vals[i], R(T._real(locs.a[i, 0, 0]))) for i in range(N)]) if len(rb.bl_vals) == N else False, cexb)
+        actor.params["w"] = z3.Real("weights_after_optimizer_steps")  # the actor keeps training: its parameters change IN PLACE
         rb.train()  # what the trainer does at the start of every epoch: the whole module tree, baseline policy included, goes to train mode
         for cls_name in ("TensorDictDataset", "FastTdDataset", "TensorDictDatasetFastGeneration"):
             dataset = getattr(ds, cls_name)(td.clone())
